@@ -4,6 +4,8 @@ import (
 	"container/list"
 	"fmt"
 	"math/rand"
+	"strings"
+	"sync/atomic"
 	"time"
 
 	"github.com/vicanso/pike/cache"
@@ -192,7 +194,7 @@ func c11One(r *hx.Run, rnd *rand.Rand, s int, pattern string) {
 }
 
 func c11(r *hx.Run) {
-	r.Rule = "every size S in the list x access pattern {uniform,zipf,scan,loop of S+1}, >=50*S dispatcher operations (get-or-create, 1/23 removals) over 4*S keys; resident count read under each shard lock after every op (S<=64) or every 64 ops; each eviction event checked against a replayed per-shard recency list; caches configured twice with different sizes; a cache renamed away and configured again under its old name through reloads applied step by step with client requests between the cache step and the server step; Non-trivial = at least one eviction happened; distinct = (size,pattern)."
+	r.Rule = "every size S in the list x access pattern {uniform,zipf,scan,loop of S+1}, >=50*S dispatcher operations (get-or-create, 1/23 removals) over 4*S keys; resident count read under each shard lock after every op (S<=64) or every 64 ops; each eviction event checked against a replayed per-shard recency list; caches configured twice with different sizes; end-to-end: fetches still in flight while their shard is filled by other keys, populations of 3S+20 uncacheable keys (at most S may still answer hitForPass when asked again); a cache renamed away and configured again under its old name through reloads applied step by step with client requests between the cache step and the server step; Non-trivial = at least one eviction happened; distinct = (size,pattern)."
 	r.Assume = []string{"residents are counted through the tag-guarded VerifStats hook (lru.Cache.Len under the shard lock)", "dispatcher-level: exported NewDispatcher/GetHTTPCache/RemoveHTTPCache are what the cache middleware calls"}
 	rnd := rand.New(rand.NewSource(r.Seed))
 	sizes := c11Sizes(r)
@@ -320,9 +322,73 @@ func c11EndToEnd(r *hx.Run, rnd *rand.Rand) {
 		return cfg
 	})
 	defer w.Farm.Close()
+	var slowGate atomic.Value // chan struct{}: fetches of /slow/ keys wait for it
 	w.Farm.SetScript(func(f *hx.Fetch) *hx.Reply {
-		return &hx.Reply{Status: 200, Header: [][2]string{{"Cache-Control", "max-age=3600"}, {"Content-Type", "text/plain"}}, Body: hx.IdentBody(f, 200, "text")}
+		rep := &hx.Reply{Status: 200, Header: [][2]string{{"Cache-Control", "max-age=3600"}, {"Content-Type", "text/plain"}}, Body: hx.IdentBody(f, 200, "text")}
+		if strings.Contains(f.URI, "/uncacheable/") {
+			rep.Header[0] = [2]string{"Cache-Control", "no-store"}
+		}
+		if strings.Contains(f.URI, "/slow/") {
+			if g, _ := slowGate.Load().(chan struct{}); g != nil {
+				rep.Gate = g
+			}
+		}
+		return rep
 	})
+	// (a) keys whose fetch is still in flight when their shard needs the space, (b) more uncacheable keys
+	// than the cache may hold: whatever kind of entry, at most S keys are held in memory
+	for _, in := range insts {
+		d := cache.GetDispatcher(in.cache)
+		if d == nil || r.TooMany() {
+			continue
+		}
+		for round := 0; round < 3; round++ {
+			g := make(chan struct{})
+			slowGate.Store(g)
+			slowURI := fmt.Sprintf("/e2e/%s/slow/%d", in.cache, round)
+			done := make(chan *hx.Result, 1)
+			go func() {
+				done <- w.Cl.Do(hx.Req{Addr: in.addr, Host: "h.example", URI: slowURI, Timeout: 30 * time.Second})
+			}()
+			hx.WaitUntil(10*time.Second, func() bool { return w.Farm.InflightKey("GET h.example "+slowURI) >= 1 })
+			for k := 0; k < 3*in.size+10; k++ {
+				w.Cl.Get(in.addr, "h.example", fmt.Sprintf("/e2e/%s/during-slow/%d/%d", in.cache, round, k))
+			}
+			close(g)
+			res := <-done
+			r.Add("e2e_fetches_in_flight_while_their_shard_was_filled", 1)
+			if res.Err != nil || res.Status != 200 {
+				r.Violate("evicted_key_not_served", map[string]string{"size": fmt.Sprint(in.size)}, "a request whose entry was dropped while its fetch was in flight was not answered", res.Brief(), map[string]interface{}{"size": in.size})
+			}
+			if st := d.VerifStats(); st.Total > in.size {
+				r.Violate("resident_exceeds_size", map[string]string{"size_class": "fetch_in_flight_while_shard_filled", "size": fmt.Sprint(in.size)},
+					fmt.Sprintf("server with cache size %d holds %d entries after a slow fetch overlapped %d other keys", in.size, st.Total, 3*in.size+10), st, map[string]interface{}{"size": in.size, "round": round})
+				break
+			}
+		}
+		slowGate.Store((chan struct{})(nil))
+		if in.store {
+			continue // with a store a dropped marker is legitimately reloaded from its persisted record
+		}
+		n := 3*in.size + 20
+		for k := 0; k < n; k++ {
+			w.Cl.Get(in.addr, "h.example", fmt.Sprintf("/e2e/%s/uncacheable/%d", in.cache, k))
+		}
+		held := 0
+		for k := n - 1; k >= 0; k-- {
+			// a key still held answers hitForPass; a dropped one is simply fetched again. Each key is asked
+			// once, so every hitForPass answer is a key that was resident when this pass began.
+			if res := w.Cl.Get(in.addr, "h.example", fmt.Sprintf("/e2e/%s/uncacheable/%d", in.cache, k)); res.Label == "hitForPass" {
+				held++
+			}
+		}
+		r.Add("e2e_uncacheable_key_populations", 1)
+		r.Max("e2e_max_uncacheable_keys_found_held", int64(held))
+		if held > in.size {
+			r.Violate("resident_exceeds_size", map[string]string{"size_class": "uncacheable_keys", "size": fmt.Sprint(in.size)},
+				fmt.Sprintf("after %d distinct uncacheable keys a server with cache size %d still holds the hit-for-pass state of %d of them", n, in.size, held), nil, map[string]interface{}{"size": in.size})
+		}
+	}
 	for _, in := range insts {
 		d := cache.GetDispatcher(in.cache)
 		if d == nil {
